@@ -34,7 +34,7 @@ def run_item(item):
     pos = [is_pos(v) for v in vs]
     neg = [is_neg(v) for v in vs]
     spec, terms = S.scd_z3(pos, neg)
-    rng = random.Random(N)
+    rng = seeded_rng(N)
     prelude = std_prelude(N)
     run_prelude(prelude)
     HIST = [("get_linear_NCPR", (2,)), ("get_linear_FCR", (2,)), ("get_linear_sigma", (2,)), ("get_countNeg", ()), ("get_phasePlotRegion", ())] if N >= 2 else []
